@@ -1497,8 +1497,18 @@ def skeleton(node, spec, ids=None, fresh=None):
                 c = (n['name'], new())
             elif n.get('fresh_ctrl'):
                 c = (n['ctrl'], new())
-            else:
+            elif n['ctrl'] in spec.get('controllers', {}):
                 c = (n['ctrl'], oid(('explicit', n['ctrl'])))
+            else:   # attached to the Controller object created by a helper call
+                key = ('explicit', n['ctrl'])
+                for hi, h in enumerate(spec.get('helpers', [])):
+                    if n['ctrl'] == h['gname'] and (h['kind'] == 'seg' or h['segs']):
+                        key = ('helper', hi, 'seg')
+                        break
+                    if h['kind'] == 'gas' and n['ctrl'] == h['gname'] + '_gen_altspec':
+                        key = ('helper', hi, 'gas')
+                        break
+                c = (n['ctrl'], oid(key))
             return f'(OCat ({coq_string(c[0])}, {cz(c[1])}) {coq_list([go(m) for _, m in n["m"]])})'
         if t == 'seg':
             h = spec['helpers'][n['h']]
